@@ -197,3 +197,49 @@ theorem toy_replaySafe (p : Nat → Bool) (app : Nat → Nat) : ReplaySafe (toyM
       · exact h1.trans (congrArg (fun k => Toy.init (k + 1)) hth)
 
 end Juno.C13
+
+namespace Juno.C13
+
+/-- The machine that ignores everything: shows that `ReplaySafe` and `NoEquivocation` are jointly
+satisfiable (a voting instance of `NoEquivocation` is C12's `no_double_vote`). -/
+def idleMachine : Machine Nat where
+  init := fun h => h
+  height := fun s => s
+  started := fun _ => false
+  step := fun s _ => (s, [])
+
+theorem idle_replayStep (s : Nat) (e : Entry) : replayStep idleMachine s e = (s, []) := by
+  unfold replayStep; split <;> rfl
+
+theorem idle_replayRun (L : List Entry) (s : Nat) : replayRun idleMachine s L = (s, []) := by
+  induction L generalizing s with
+  | nil => rfl
+  | cons e L ih => simp [replayRun, idle_replayStep, ih, effectsOf]
+
+theorem idle_replaySafe : ReplaySafe idleMachine where
+  height_init := fun _ => rfl
+  started_init := fun _ => rfl
+  logged_or_inert := fun _ _ _ => Or.inl ⟨rfl, rfl⟩
+  height_mono := fun _ _ => Nat.le_refl _
+  commit_last := by
+    intro s i pre h v post heq
+    have : ([] : List Action) = pre ++ Action.commit h v :: post := heq
+    cases pre <;> simp at this
+  no_commit_height := fun _ _ _ => rfl
+  votes_current_height := by intro s i v hv; simp [idleMachine, effectsOf, votesOf] at hv
+  unstarted_silent := fun _ _ _ _ => ⟨rfl, rfl, rfl⟩
+  future_silent := fun _ _ _ _ => rfl
+  commute := by
+    intro s a b _ _ _
+    simp [idle_replayStep, visA, visibleOf, effectsOf]
+  commit_reset := by
+    intro h A e _ hc
+    rw [idle_replayStep] at hc
+    simp [committed] at hc
+
+theorem idle_noEquivocation : NoEquivocation idleMachine := by
+  intro h L v w hv
+  rw [idle_replayRun] at hv
+  simp [votesOf] at hv
+
+end Juno.C13
